@@ -23,6 +23,8 @@ CHARSETS = ['utf-8', 'utf-8-sig', 'utf-16', 'utf-32', 'latin-1', 'cp1252', 'shif
 
 
 def render(case):
+    if 'raw_text' in case:      # an empty document spelled as line ends only
+        return case['raw_text'], zinc_ref.Plan()
     txt, plan = zinc_ref.write_document(case['grids'], case.get('choices', ()), case.get('eol', '\n'), case.get('final_nl', True))
     return txt, plan
 
@@ -33,7 +35,7 @@ def check_doc(case, acc=None):
     txt, plan = render(case)
     # self-check of the harness: the independent reader must read the writer's text back to the model
     try:
-        mine, _ = zinc_ref.read_document(txt)
+        mine, _ = zinc_ref.read_document(txt) if 'raw_text' not in case else ([], None)
     except zinc_ref.ZincRefError as e:
         raise AssertionError('harness writer/reader disagree: %s on %r' % (e, txt))
     for m, b in zip(ms, mine):
@@ -170,6 +172,14 @@ def run(part, args, env):
             for inp in ('str', 'bytes:utf-8'):
                 for nl in (True, False):
                     case = {'kind': 'doc', 'grids': [], 'single': single, 'input': inp, 'final_nl': nl}
+                    if nl:
+                        for raw in ('\n', '\r\n', '\n\n'):
+                            c2 = dict(case, raw_text=raw)
+                            acc.case(c2, True, labels=('empty-document',))
+                            try:
+                                check_doc(c2, acc)
+                            except Violation as v:
+                                acc.violation(v)
                     acc.case(case, True, labels=('empty-document',))
                     acc.sample(case)
                     try:
